@@ -387,6 +387,25 @@ impl<'a> Runtime<'a> {
         Ok(())
     }
 
+    /// True when evaluating `expr` can run a user function. A user function can assign to a
+    /// variable, which recycles the pool slot that values read from that variable still borrow.
+    fn may_run_code(expr: ExprRef<'a>) -> bool {
+        !matches!(
+            expr,
+            Expr::Number(..)
+                | Expr::String { .. }
+                | Expr::Bool(..)
+                | Expr::Null(..)
+                | Expr::Var(..)
+        )
+    }
+
+    /// Gives an operand storage of its own, so it stays valid while a later operand that can
+    /// run code (see `may_run_code`) is evaluated.
+    fn detach_operand(&self, value: Value<'a>) -> Value<'a> {
+        value.detach(&self.pool, self.frame)
+    }
+
     /// Rejects a value that is about to be stored `enclosing` arrays deep when that would
     /// nest arrays deeper than `MAX_ARRAY_NESTING`. Every place where nesting can grow
     /// (array literal, `push`, index assignment) calls this, which bounds the unprobed
@@ -717,6 +736,7 @@ impl<'a> Runtime<'a> {
                 }
                 _ => {
                     let l = self.eval_expr(lhs)?;
+                    let l = if Self::may_run_code(rhs) { self.detach_operand(l) } else { l };
                     let r = self.eval_expr(rhs)?;
                     match (l, r) {
                         (Value::Number(lv), Value::Number(rv)) => match op {
@@ -809,10 +829,11 @@ impl<'a> Runtime<'a> {
                 }
             }
             Expr::Array { elements, span } => {
+                let runs_code = elements.iter().any(|element| Self::may_run_code(element));
                 let mut values = Vec::with_capacity_in(elements.len(), self.frame);
                 for element in *elements {
                     let val = self.eval_expr(element)?;
-                    values.push(val);
+                    values.push(if runs_code { self.detach_operand(val) } else { val });
                 }
                 let array = Value::Array(values);
                 Self::check_nesting(&array, 0, *span)?;
@@ -820,6 +841,11 @@ impl<'a> Runtime<'a> {
             }
             Expr::Index { array, index, index_span, .. } => {
                 let array_value = self.eval_expr(array)?;
+                let array_value = if Self::may_run_code(index) {
+                    self.detach_operand(array_value)
+                } else {
+                    array_value
+                };
                 let index_value = self.eval_expr(index)?;
                 let Value::Array(mut items) = array_value else {
                     return Err(RuntimeError::new(RuntimeErrorKind::TypeMismatch, array.span()));
@@ -880,9 +906,11 @@ impl<'a> Runtime<'a> {
         let frame_offset = if self.has_frame_arena() { Some(self.frame.offset()) } else { None };
 
         // We evaluate all arguments eagerly (left-to-right evaluation order)
+        let runs_code = args.args.iter().any(|arg_expr| Self::may_run_code(arg_expr));
         let mut arg_values = Vec::with_capacity_in(args.args.len(), self.frame);
         for arg_expr in args.args {
-            arg_values.push(self.eval_expr(arg_expr)?);
+            let arg = self.eval_expr(arg_expr)?;
+            arg_values.push(if runs_code { self.detach_operand(arg) } else { arg });
         }
 
         assert_eq!(arg_values.len(), func_def.params.params.len());
@@ -1000,6 +1028,11 @@ impl<'a> Runtime<'a> {
         }
 
         let receiver = self.eval_expr(object)?;
+        let receiver = if args.args.iter().any(|arg_expr| Self::may_run_code(arg_expr)) {
+            self.detach_operand(receiver)
+        } else {
+            receiver
+        };
         match receiver {
             Value::Str(ref s) => match StringBuiltin::from_name(field) {
                 Some(..) => self.eval_string_member_call(s, field, args),
@@ -1339,6 +1372,8 @@ impl<'a> Runtime<'a> {
             }
             StringBuiltin::Replace => {
                 let old = self.eval_expr(args.args[0])?;
+                let old =
+                    if Self::may_run_code(args.args[1]) { self.detach_operand(old) } else { old };
                 let new = self.eval_expr(args.args[1])?;
                 match (old, new) {
                     (Value::Str(o), Value::Str(n)) => {
@@ -1753,6 +1788,11 @@ impl<'a> Runtime<'a> {
     ) -> Result<(), RuntimeError> {
         let (base_expr, base_var, index_exprs) = self.flatten_index_target(target);
 
+        let value = if index_exprs.iter().any(|(index_expr, _)| Self::may_run_code(index_expr)) {
+            self.detach_operand(value)
+        } else {
+            value
+        };
         let mut evaluated_indices = Vec::with_capacity_in(index_exprs.len(), self.frame);
         for (index_expr, index_span) in &index_exprs {
             let idx = self.eval_index_value(index_expr, *index_span)?;
